@@ -319,6 +319,39 @@ const LIMIT = 10
 		// a key whose ttl has run out, read by two requests at once (lazy expiry must not write under a shared lock)
 		c08Scen{Name: "redis/two-reads-of-an-expired-key", Src: redis, Setup: []c08Req{post("/setex/k/1", ""), {M: "ADVANCE", Path: "2s"}}, Threads: [][]c08Req{{get("/get/k")}, {get("/get/k"), get("/exists/k")}}, After: []c08Req{get("/get/k")}, Bound: 2},
 	)
+	// H5b: mongodb provider; a collection springs into being with its first use, so two requests that are both the
+	// first to name it must end up in the same one
+	mongo := `
+@ POST /ins/:c {
+  % mongo: MongoDB
+  $ col = mongo.Collection(c)
+  $ r = col.InsertOne({v: input.v})
+  > {id: r}
+}
+@ GET /cnt/:c {
+  % mongo: MongoDB
+  $ col = mongo.Collection(c)
+  $ r = col.CountDocuments({})
+  > {n: r}
+}
+@ GET /find/:c {
+  % mongo: MongoDB
+  $ col = mongo.Collection(c)
+  $ r = col.Find({})
+  > {rows: r}
+}
+@ POST /del/:c {
+  % mongo: MongoDB
+  $ col = mongo.Collection(c)
+  $ r = col.DeleteMany({v: input.v})
+  > {n: r}
+}
+`
+	out = append(out,
+		c08Scen{Name: "mongo/two-first-inserts-into-a-new-collection", Src: mongo, Threads: [][]c08Req{{post("/ins/orders", `{"v":1}`)}, {post("/ins/orders", `{"v":2}`)}}, After: []c08Req{get("/cnt/orders"), get("/find/orders")}, Bound: 2},
+		c08Scen{Name: "mongo/first-insert-and-first-count", Src: mongo, Threads: [][]c08Req{{post("/ins/orders", `{"v":1}`)}, {get("/cnt/orders")}}, After: []c08Req{get("/cnt/orders")}, Bound: 2},
+		c08Scen{Name: "mongo/insert-delete-existing-collection", Src: mongo, Setup: []c08Req{post("/ins/orders", `{"v":1}`)}, Threads: [][]c08Req{{post("/ins/orders", `{"v":1}`)}, {post("/del/orders", `{"v":1}`)}}, After: []c08Req{get("/cnt/orders")}, Bound: 2},
+	)
 	if thorough {
 		out = append(out,
 			c08Scen{Name: "redis/three-incr", Src: redis, Threads: [][]c08Req{{post("/incr/c", "")}, {post("/incr/c", "")}, {post("/incr/c", "")}}, After: []c08Req{get("/get/c")}, Bound: 1},
@@ -697,6 +730,19 @@ func c08Prepare(sc c08Scen, mode string, depth int) (c08Scen, *ast.Module, map[s
 			return sc, nil, nil, err
 		}
 		allowed[strings.Join(flat, " || ")] = true
+		// a provider scenario in which no request succeeds when sent alone one after the other says nothing about
+		// the provider (a route text the language does not accept the way it was meant): refuse to run it
+		if fam := c08Family(sc.Name); fam == "redis" || fam == "db" || fam == "mongo" {
+			ok := false
+			for _, f := range flat {
+				if strings.HasPrefix(f, "2") {
+					ok = true
+				}
+			}
+			if !ok {
+				return sc, nil, nil, fmt.Errorf("vacuous scenario: no request is answered 2xx in thread order %v: %q", ord, flat)
+			}
+		}
 	}
 	return sc, mod, allowed, nil
 }
@@ -719,6 +765,9 @@ func TestVerif_C08(t *testing.T) {
 	item := 0
 	depthFor := map[string]int{}
 	for _, sc0 := range c08Scens(p.Thorough) {
+		if only := os.Getenv("C08_ONLY"); only != "" && !strings.Contains(sc0.Name, only) { // debugging aid; never set by the driver
+			continue
+		}
 		for _, mode := range []string{"interpreted", "compiled"} {
 			item++
 			// every scenario is spread over all shards: a shard explores the subtrees of its share
